@@ -1080,7 +1080,9 @@ class Repository:
             )
 
     def _flatten_resolve_paths(self, paths):
-        return list(flatten_paths(path.resolve(strict=True) for path in paths))
+        # Repeated or overlapping arguments must not yield the same file twice
+        flattened = flatten_paths(path.resolve(strict=True) for path in paths)
+        return list(dict.fromkeys(flattened))
 
     async def snapshot(self, *, paths, note=None, rate_limit=None):
         self.display_status('Collecting files')
